@@ -533,11 +533,13 @@ def check(repo, run, tier):
     g(unitrules.constructor_arguments, repo, run, 'C01.R1c')
     g(unitrules.metadata_syntax_table, repo, run, 'C01.R7')
     g(unitrules.parse_errors, repo, run, 'C01.R6')
+    g(unitrules.constructor_error_context, repo, run, 'C01.R6')
     g.done()
 
 
 def mutants(repo):
     return [
+        Mutant('multi-constructor-error-context-is-the-suffix', lambda r: in_func(r, 'yaml.rethrow_as_parsing_error', "node = args[2] if len(args) > 2 else args[1]", "node = args[2] if len(args) > 3 else args[1]"), ['C01.R6']),
         Mutant('null-payload-accepts-a-value', lambda r: in_func(r, 'ConfigNone.__new__', "            raise ValueError(f'!null does not expect any arguments, but got: {value!r}')", "            pass"), ['C01.R8']),
         Mutant('parsing-error-without-node', lambda r: in_func(r, 'yaml.parse', "raise errors.ParsingError(str(e), node=None, path=None) from e", "raise errors.ParsingError(str(e), path=None) from e"), ['C01.R6']),
         Mutant('metadata-end-not-found', lambda r: in_func(r, 'yaml._get_metadata_end', "        if end == -1:", "        if end != -1:"), ['C01.R7']),
